@@ -9,3 +9,4 @@ import SfModel.Adpcm
 import SfModel.AdpcmSpec
 import SfModel.FormatCheck
 import SfModel.Generated.FormatLists
+import SfModel.Command
